@@ -35,6 +35,7 @@ E2_RULES = [
     ("mixed-explicit-and-attrpath", lambda s, d: re.search(r"[/|]mixed(3|_rev)?:", s) is not None),
     ("layer-prune-drops-comment-between-layers", lambda s, d: "let2c" in s),
     ("inherited-name", lambda s, d: "set 'q'" in s),
+    ("explicit-set-under-attrpath-not-editable", lambda s, d: "Mixed explicit bind" in d),
     ("with-wrapper-scope-layout", lambda s, d: re.search(r"(^|[|/])with/", s) is not None),
     ("attrpath-order-cache-stale", lambda s, d: s.split("|")[1] in ("attrpath", "attrpath2", "deep", "scoped-attrpath", "lambda-attrpath")),
 ]
@@ -47,6 +48,7 @@ E2_META = {
     "scope-selector-falls-back-to-body": ("`set @name` with no let layer edits the body binding `name` when it exists instead of creating a layer", "cli/manipulations.py:set_value shortcut `_path_exists_in_attrset`"),
     "mixed-explicit-and-attrpath": ("documents defining a name both explicitly and through attrpaths: edits create duplicates / cannot find members", "set.py:_merge_attrpath_bindings keeps both bindings; path walk only follows one of them"),
     "layer-prune-drops-comment-between-layers": ("pruning an outer let layer drops the comment that stood between its `in` and the next `let`", "cli/manipulations.py:_write_scope_layers / remove_value restore body trivia of the removed layer only when no layer is left"),
+    "explicit-set-under-attrpath-not-editable": ("after an attrpath leaf was set to a set literal (`a.b = { k = 1; };`) a deeper path (`a.b.c`) is refused with 'Mixed explicit binding inside attrpath'", "cli/manipulations.py:_set_attrpath_value refuses explicit (non-nested) bindings on the way down an attrpath family"),
     "inherited-name": ("`set` on a name that is only inherited adds a second definition", "cli/manipulations.py:_find_binding ignores Inherit entries"),
     "with-wrapper-scope-layout": ("creating/pruning a let layer under `with p;` rewrites the line break after `with p;` and drops the final newline", "WithStatement.rebuild chooses inline vs multi-line from a preview; remove_value strips the trailing newline when the last layer is pruned"),
     "attrpath-order-cache-stale": ("mapping operations on attrpath-derived bindings leave the rebuilt text unchanged", "AttributeSet.__setitem__/__delitem__ (and Scope) update `values` but not the `attrpath_order` render cache"),
